@@ -225,6 +225,7 @@ def run_history(world, case):
             def __init__(self, *a, **k):
                 super().__init__(*a, **k)
                 self.clock = clock
+                self.tie_mod = run.get('tie_mod', 0)
         world.detsched.Controller = ControllerAt
         try:
             out = run_ctl()
